@@ -32,9 +32,11 @@ class externaldocument(Command):
         if url:
             url = url.textContent.rstrip('/') + '/'
         labels = self.ownerDocument.context.labels
-        for block in load_paux(pauxname).values():
-            if not isinstance(block, dict):
-                continue
+        # Labels are saved separately for each renderer (see Context.persist);
+        # only the block written by the renderer in use describes our targets
+        rname = self.ownerDocument.config['general']['renderer']
+        block = load_paux(pauxname).get(rname)
+        if isinstance(block, dict):
             for lbl, val in block.items():
                 if not isinstance(lbl, str) or not isinstance(val, dict):
                     continue
